@@ -1,4 +1,6 @@
 import Ogen.IntRoundTrip_proof
+import Ogen.Generated.Facts_float
+import Ogen.UnixTime_proof
 /-!
 # C13 — text forms of primitive values parse back to the same value (partial)
 
@@ -27,6 +29,31 @@ theorem int_syntax (v : Int) :
       (fmtNat v.natAbs).all isDigit = true ∧ fmtNat v.natAbs ≠ [] := fmtInt_syntax v
 
 theorem bool_rt (b : Bool) : parseBool (fmtBool b) = some b := IntRT.bool_rt b
+
+/-- **(regenerated facts) every float formatter asks `strconv` for the shortest text that parses back**:
+    precision −1 (never a fixed number of digits — `('f', 10)` turned 1e-11 into 0 before the fix), verb `g` or
+    `f`, and the bit size of the value's own type (or the bit-size parameter its callers pass), so that
+    `ParseFloat(text, bits)` returns the value by strconv's documented round-trip contract — which is a
+    hypothesis of this development, exercised on random bit patterns, not proved -/
+theorem float_spec_ok :
+    Facts.Float.formatCalls ≠ [] ∧
+    Facts.Float.formatCalls.all (fun c => c.2.2.1 == "-1" && (c.2.1 == "'g'" || c.2.1 == "'f'") &&
+      (c.2.2.2.1 == c.2.2.2.2 || "param:" ++ c.2.2.2.1 == c.2.2.2.2)) = true := by decide
+
+/-- **Unix timestamps, text → value → text**: in each of the four units every integer (negative ones
+    included) is the timestamp of the instant it is converted to — `time.Unix` / `UnixMilli` / `UnixMicro` with
+    Go's truncating `/` and `%` and the normalisation of a negative remainder, then `Unix()` / `UnixMilli()` /
+    `UnixMicro()` / `UnixNano()` -/
+theorem unix_text_value_text (u : UnixT.Unit') (n : Int) : UnixT.toUnit u (UnixT.fromUnit u n) = n :=
+  UnixT.to_from u n
+
+/-- **Unix timestamps, value → text → value at the unit's resolution**: an instant comes back truncated to a
+    whole number of units (toward the past); whole instants come back unchanged -/
+theorem unix_value_text_value (u : UnixT.Unit') (t : UnixT.Instant) (h : t.WF) :
+    UnixT.fromUnit u (UnixT.toUnit u t) = ⟨t.sec, t.nsec - t.nsec % UnixT.nsPer u⟩ := UnixT.from_to u t h
+
+theorem unix_exact (u : UnixT.Unit') (t : UnixT.Instant) (h : t.WF) (hu : t.nsec % UnixT.nsPer u = 0) :
+    UnixT.fromUnit u (UnixT.toUnit u t) = t := UnixT.from_to_exact u t h hu
 
 /-! non-vacuity -/
 example : fmtInt (-128) = [0x2d, 0x31, 0x32, 0x38] ∧ parseInt 8 (fmtInt (-128)) = some (-128) := by decide
